@@ -328,8 +328,16 @@ func init() {
 				for _, h := range c04Long {
 					tasks = append(tasks, crashTask{Cfg: cfg, Ops: h, Full: full, Nested: c.Tier == "thorough"})
 				}
-				for _, s := range genSeqs(c04Alpha, depth) {
-					tasks = append(tasks, crashTask{Cfg: cfg, Ops: s, Full: full, Nested: c.Tier == "thorough" && len(s) <= 2})
+				nestMax := 2 // crash again inside recovery for the short histories
+				if c.Tier == "thorough" {
+					nestMax = 3
+				}
+				dd := depth
+				if c.Tier == "quick" && cfg != "flushy/bytewise" {
+					dd = depth - 1 // quick: full depth on the richest configuration only
+				}
+				for _, s := range genSeqs(c04Alpha, dd) {
+					tasks = append(tasks, crashTask{Cfg: cfg, Ops: s, Full: full, Nested: len(s) <= nestMax})
 				}
 			}
 			runCrashTasks(c, pool, "C04", tasks)
